@@ -9,7 +9,8 @@ import (
 )
 
 // H_C10_AccessInvalidate: the Access callback's first invocation invalidates the value it was
-// given (it calls the resolver's released() callback) and returns an error at once. Access must
+// given (it calls the resolver's released() callback), waits until the invalidation has been
+// delivered (the resolver is called again) and returns an error. Access must
 // not return that invocation's result: it waits for the replacement value, invokes the
 // callback again with it and returns that invocation's result. Every value passed to the
 // callback is the value current when Access looked.
@@ -17,6 +18,7 @@ func H_C10_AccessInvalidate() {
 	errStale := errors.New("result of the invalidated invocation")
 	var n int
 	var lastRel func()
+	second := make(chan struct{})
 	resolver := func(ctx context.Context, released func()) (int, func(), error) {
 		var v int
 		vrt.Atomic(func() {
@@ -24,6 +26,9 @@ func H_C10_AccessInvalidate() {
 			v = n
 			lastRel = released
 		})
+		if v == 2 {
+			close(second)
+		}
 		return v, nil, nil
 	}
 	rc := refcount.NewRefCount[int](context.Background(), false, nil, nil, resolver)
@@ -38,6 +43,9 @@ func H_C10_AccessInvalidate() {
 			var f func()
 			vrt.Atomic(func() { f = lastRel })
 			f()
+			// released() may be processed asynchronously: the invalidation has certainly been
+			// delivered once the resolver has been called again
+			<-second
 			return errStale
 		}
 		return nil
